@@ -22,6 +22,7 @@ From PowHsm Require Import Proofs.SrcEquivGateM.
 From PowHsm Require Import Proofs.SrcLiftGate.
 From PowHsm Require Import Proofs.SrcEquivGateV1M.
 From PowHsm Require Import Proofs.SrcEquivSendCommandM.
+From PowHsm Require Import Proofs.SrcLiftC04.
 Open Scope N_scope.
 
 (* for every request and every device script, sign answers only codes docs/protocol.md lists for sign plus the generic ones (closed check on the generated tables vs the generated doc lists) *)
@@ -462,5 +463,45 @@ Theorem C04_source_send_command_is_the_primitive :
          srcm_HSM2Dongle___send_command (VObj cls fields) (VInt (Z.of_N cmd)) (VBytes data) timeout w =
          MV.m_send_command (VInt (Z.of_N cmd)) (VBytes data) w.
 Proof. exact (@srcm_send_command_is_primitive). Qed.
+
+(* the translated _advance_blockchain answers 0 / 1 only when the device operation returned (True, OK_TOTAL / OK_PARTIAL), in the world the handler ends in *)
+Theorem C04_source_advance_ok_only_from_device_success :
+  forall (keccak : bytes -> bytes) (kind : dongle_kind) (init : pm pv)
+           (cm : string -> pv -> list pv -> pr pv) (fuel : nat) (self : pv) 
+           (req : obj) (blocks : list str) (brothers : list (list str)) (w : world) 
+           (c : Z) (rest : list pv) (w' : world),
+         init_ok kind init ->
+         block_oracles_ok keccak cm ->
+         keccak_wf keccak ->
+         jget (s "blocks") req = Some (jstrs blocks) ->
+         jget (s "brothers") req = Some (JArr (map jstrs brothers)) ->
+         fuel_ok kind fuel w ->
+         srcm_HSM2ProtocolLedger___advance_blockchain fuel cm init self (of_obj req) w =
+         (XOk (VList (VInt c :: rest)), w') ->
+         c = V5_ERROR_CODE_OK \/ c = V5_ERROR_CODE_OK_PARTIAL ->
+         exists (bl : list (option bytes)) (br : list (list (option bytes))) 
+         (w1 : world),
+           advance_blockchain keccak bl br w1 =
+           (Ok (true, if (c =? V5_ERROR_CODE_OK)%Z then RESP_ADV_OK_TOTAL else RESP_ADV_OK_PARTIAL),
+            w').
+Proof. exact (@src_advance_ok_only_from_device_success). Qed.
+
+(* the translated _update_ancestor_block answers a success code only when the device operation returned (True, OK_TOTAL); 1 is never answered *)
+Theorem C04_source_update_ancestor_ok_only_from_device_success :
+  forall (keccak : bytes -> bytes) (kind : dongle_kind) (init : pm pv)
+           (cm : string -> pv -> list pv -> pr pv) (fuel : nat) (self : pv) 
+           (req : obj) (blocks : list str) (w : world) (c : Z) (rest : list pv) 
+           (w' : world),
+         init_ok kind init ->
+         block_oracles_ok keccak cm ->
+         jget (s "blocks") req = Some (jstrs blocks) ->
+         fuel_ok kind fuel w ->
+         srcm_HSM2ProtocolLedger___update_ancestor_block fuel cm init self (of_obj req) w =
+         (XOk (VList (VInt c :: rest)), w') ->
+         c = V5_ERROR_CODE_OK \/ c = V5_ERROR_CODE_OK_PARTIAL ->
+         c = V5_ERROR_CODE_OK /\
+         (exists (bl : list (option bytes)) (w1 : world),
+            update_ancestor bl w1 = (Ok (true, RESP_UPD_OK_TOTAL), w')).
+Proof. exact (@src_update_ancestor_ok_only_from_device_success). Qed.
 
 Example C04_nonvacuous : True. Proof. exact I. Qed. (* concrete runs closed by vm_compute in Proofs/C04.v: blockchainState on Status 0x6B87 / silent device / bad opcode / 0x6F00 answers -905; sign on ERR_SIGN_INVALID_PATH answers -103; ex_error_result_escapes_* exhibit the reconnection-bring-up observation recorded in DESIGN.md *)
